@@ -73,7 +73,8 @@ CHECKS = {
         text="All 481 templates with every alphabet element of every variable (LLSD-carriable domain) are driven through LLSDMessageSerializer (dict and XML "
              "routes) and EventQueueManager.inject_message and compared value by value; all LLSD trees of depth <= 3 (thorough: <= 4 with the full pair product "
              "at depth 2) over 59 typed leaves go through binary (+/- header), BinaryLLSD spec, notation, XML and zip under 4 process time zones and are compared "
-             "against an independent tagged canonical model (LLSD type, bit-exact reals, instants in microseconds). Reals additionally include F32-widened doubles and vectors made of them, plus a sweep of every F32 exponent and every F64 exponent x mantissa patterns x signs through all six codecs, bit-exact.",
+             "against an independent tagged canonical model (LLSD type, bit-exact reals, instants in microseconds). Reals additionally include F32-widened doubles and vectors made of them, plus a sweep of every F32 exponent and every F64 exponent x mantissa patterns x signs through all six codecs, bit-exact. The event-queue consumer is driven through every {inject, rewrite-the-same-Message-in-place} sequence of length <= 3 "
+             "(thorough 4) per template and value row: each queued event must deserialize to the message as it was at injection time.",
         note="Siblings are each-choice; naive datetime is taken as UTC; strings containing CR are outside the XML route's domain (XML line-end normalisation); "
              "newline-bearing map keys are not held to the notation-newline sentence (it speaks of string values); tz database, msggen/refwire and stdlib "
              "datetime arithmetic trusted."),
@@ -106,7 +107,10 @@ CHECKS = {
         technique="instance discovery by walking live objects from the registry/templates/llanim/mesh + exhaustive sweep of the 8/16-bit wire domain per instance",
         text="Every quantiser / fixed-point instance reachable from the subfield registry, templates, llanim and mesh (95 instances, 21 parameterisations) is swept "
              "over every raw value of its wire type through decode/encode and through the reader/writer path in both byte orders; key-frame times over all 65536 "
-             "raws x 41 (quick) / 1026 (thorough) durations; the numpy variant over the full arange. Clauses: inverse, monotonic, endpoints, exact zero.",
+             "raws x 41 (quick) / 1026 (thorough) durations; the numpy variant over the full arange. The wrapper layer: every vector wrapper and every adapter over one (PackedQuat over "
+             "Vector3U16 / Vector4U16 / Vector4U8; 15 distinct, 28 instances) is swept through its own decode/encode with raw-tuple patterns (all-equal, one "
+             "component swept against middle / max,min, anti-diagonal, over all 65,536 raws; 8-bit: all tuples over a 16-point alphabet) in both reader modes. "
+             "Clauses: inverse, monotonic, endpoints, exact zero.",
         note="Quantisers constructed lazily inside function bodies are not seen by the walk; classes overriding the quantisation arithmetic are held to inverse, "
              "monotonic and the lower end only; duration 0.0 checked for totality only; key-frame time ends additionally checked for 2271 durations (every 1/8 s up to 64 s, every whole second up to "
              "600 s, every F32 with <= 8 mantissa bits) at the end and middle raws; all clauses run in both reader modes (pod=False/True) incl. vector wrappers through the wire path; two open known findings (PackedTERotation raw -32768, mesh normals have no exact zero)."),
@@ -121,7 +125,9 @@ CHECKS = {
              "independent reference wire encoder (fixed header, prim parameters, section bits and simple sections hand-packed from the protocol layout) and the "
              "template's own encoding of the same value must be byte-identical (template-encode, template-encode-raises). Wire-first degenerate contents (zero-length / "
              "one byte / length-1 / exact / length+1, prefix and blob consistent) for every length-prefixed, NUL-terminated, fixed-size or to-EOF section and every "
-             "ExtraParams entry are judged by the same rule (if the template decodes and re-encodes it, the fast reader must agree).",
+             "ExtraParams entry are judged by the same rule (if the template decodes and re-encodes it, the fast reader must agree). The TextureEntry section is hand-packed by the "
+             "reference encoder (canonical face-set bytes, field framing, quantisers restated); exception face sets whose top face sweeps 0..31, 34, 35, 41, 42, 44 "
+             "are enumerated.",
         note="Domain = what the reference encoder emits plus byte mutations of it; TextureEntry, ExtraParams and particle sections are encoded by sub-templates "
              "both decoders share, so a defect common to both inside those is visible only through the re-encode clause; a mutated payload is judged only if the template decodes it and re-encodes "
              "it to itself; PCodes outside the enum are counted, not asserted; enums by value, dataclasses by fields, lazy proxies forced, floats bit-exact; decode "
@@ -179,7 +185,8 @@ CHECKS = {
              "region handle, alone and next to the main circuit), with independently parsed SOCKS and LLUDP headers; plus repeated-garbage "
              "histories for every garbage kind (each banned name), socket-level faults (protocol.error_received with 4 errnos; EMSGSIZE from a real oversize "
              "inbound datagram) interleaved with valid traffic, associations x teardown at the SOCKS control seam (both associations created by the real SOCKS5 control handler on in-memory streams; every "
-             "sequence <= 4 of traffic on either viewer and either control connection ending: ending X tears down X only), and flood scenarios up to 300 distinct far addresses / source hosts / truncated datagrams before "
+             "sequence <= 4 of traffic on either viewer and either control connection ending: ending X tears down X only), region re-announcement (an already registered region handle announced at a new address with the old circuit "
+             "alive / cleanly closed / absent, then UseCircuitCode and traffic at the new and old addresses), and flood scenarios up to 300 distinct far addresses / source hosts / truncated datagrams before "
              "valid traffic.",
         note="One message shape per event class in the BFS (all 481 templates only in the single-circuit sweep); exceptions escaping datagram_received are swallowed as "
              "asyncio's datagram transport does; the ban list is an inbound rule; an ACK flag with an empty ack list compares equal to no ACK flag; dead circuits carry no judged traffic (only the kill and re-open datagrams are asserted); "
@@ -195,7 +202,9 @@ CHECKS = {
              "reference model. Separately all op sequences of length <=4 over {take, send, drop, queue, sendcopy} x 8 message variants on a bare ProxiedCircuit, "
              "plus 1056 async-subscription life-cycle cases (subscribe_async / wait_for on one and on two message names, resolved by either name, left by every "
              "route; a later datagram of each other name must go out exactly once) on the virtual loop. A dropped reliable message is acknowledged to its sender "
-             "exactly once, also when the command or a hook failed (bookkeeping-drop-ack).",
+             "exactly once, also when the command or a hook failed (bookkeeping-drop-ack). Hot-reload family: real addon scripts (plain / hot_reload of a "
+             "dependency) with dependency, script or both edited on disk while a session is up (reload throttle removed deterministically); datagrams around the "
+             "edits are forwarded exactly once with the script's hook invoked.",
         note="Behaviours are armed for the message under test only; pairs/triples use representative lists; async subscribers are represented by the sync take(); "
              "ownership combinations the proxy itself rejects with RuntimeError are checked for the wire and probe clauses only and counted; only Exception subclasses "
              "are raised; the reference model follows the documented dispatch rules."),
@@ -224,7 +233,9 @@ CHECKS = {
              "the payload bytes. Encode histories: [fail], [fail, fail], [foreign fail], [foreign fail, fail] (failing encodes that raise after writing >= 1 byte) "
              "followed by serialize / serialize(pod) / Block.serialize_var must give the bytes two clean encodes gave. For each abstract subfield-serializer base that "
              "addons subclass (FlagSwitched, EnumSwitched, Simple/TEMPLATE, Adapter, AdapterInstance, the registration helpers) two harness-defined subclasses with "
-             "different templates behind the same selector values and one shipped subclass are used interleaved in all orders against hand-built reference bytes.",
+             "different templates behind the same selector values and one shipped subclass are used interleaved in all orders against hand-built reference bytes. Copy isolation: a value handed out by Block.deserialize_var (first call, later "
+             "call, after a no-copy call) is edited deeply in place without write-back, after which the block's decoded view, its pod decoding and "
+             "serialize_var(k, deserialize_var(k)) must still correspond to the unchanged wire value.",
         note="Wire types from message_template.msg through the independent parser; 32/64-bit domains by alphabet; UNSERIALIZABLE means 'no pretty form'; floats NaN-free; "
              "9 registrations naming variables that do not exist in the template are out of scope; value generation uses the library's spec objects and adapter grids; "
              "a round-trip oracle cannot see an encoder that loses information consistently with its decoder (C13 covers the compressed-update template independently)."),
@@ -233,7 +244,8 @@ CHECKS = {
         technique="bounded-exhaustive enumeration of decoded generator messages x torture text values x {beautify} x replacement tables; text-level enumeration of "
                   "eval-operator rewrites and expression payloads for the safe-mode clause with three independent evaluation detectors",
         text="Every message the template-driven generator produces for all 481 templates (value rows, block-count variants, all 256 flag bytes on basis templates), with "
-             "byte-variable alphabets extended by a text-layer torture list (50 str / 30 bytes / 7 Fixed values, incl. the product {wrapped at 100 columns, "
+             "byte-variable alphabets extended by a text-layer torture list (59 str / 33 bytes / 7 Fixed values; characters a lenient parser might normalise -- all typographic quotes U+2018-201F, NBSP, "
+             "ZWSP, dashes, ellipsis, fullwidth = # $, BOM, NEL, LS/PS -- in str and UTF-8 bytes values and inside string fields of pretty-printed subfields; incl. the product {wrapped at 100 columns, "
              ">=5-newline form} x {' #', tab-#, trailing ' \\', '=|', '=$', '[[NAME]]', '<1,2,3>', UUID-looking, parentheses} inside str and bytes values), is decoded from its datagram, printed with to_human_string (plain and beautified, four "
              "replacement tables, both directions), parsed with from_human_string(safe=True), serialized and compared with the datagram body. All reachable subfield "
              "serializers are exercised in beautified form (dense integer sets; context x fill x length payloads). Safe mode: 5 eval-operator rewrites and 46 expression "
